@@ -45,6 +45,14 @@ Theorem C41_fix_conservative : forall root p s, put false root p = Some s -> put
 Proof. exact put_fixed_sub. Qed.
 Print Assumptions C41_fix_conservative.
 
+(** ... and it rejects nothing else: of the references the current code accepts,
+    the repaired check keeps EXACTLY those that resolve inside the root (no
+    functionality is lost), for every root and FullPath string. *)
+Theorem C41_fix_exact : forall root p s, put true root p = Some s ->
+  (put false root p = Some s <-> inside root (resolved root s) = true).
+Proof. exact fix_exact. Qed.
+Print Assumptions C41_fix_exact.
+
 (** Non-vacuity: references inside the root — also through "." , "//", "sub/.."
     spellings, a trailing slash on the root, a relative root — are accepted. *)
 Example C41_example_accepts :
